@@ -24,10 +24,42 @@ def gen_case(rng):
             'method': rng.choice(['largest_box', 'largest_box', 'ellipse']),
             'keypoints': [[rng.uniform(5, W - 6), rng.uniform(5, H - 6), rng.uniform(4, D - 5), rng.uniform(0, 6.2), rng.uniform(0.5, 3)] for _ in range(4)],
             'boxes': [[6.0, 7.0, 5.0, 6.0 + rng.uniform(3, 8), 7.0 + rng.uniform(3, 8), 5.0 + rng.uniform(2, 6)]]}
+    if cls == 'Rotate':
+        case['crop_to_border'] = rng.random() < 0.4      # the enlarged output frame (off by default)
     if cls == 'ShiftScaleRotate':
         case['scale_limit'] = rng.choice([(0.0, 0.0), (0.2, 0.4), (-0.3, -0.1)])
         case['shift_limit'] = rng.choice([0.0, 0.1])
     return case
+
+
+def sweep(rng):
+    """every class x plane x crop_to_border once, on frames whose three extents differ strongly (a rows / cols or a
+    plane confusion is invisible on near-cubic frames)"""
+    out = []
+    for cls in ('Rotate', 'ShiftScaleRotate'):
+        for plane in ('xy', 'yz', 'xz'):
+            for crop in ((False, True) if cls == 'Rotate' else (False,)):
+                c = gen_case(rng)
+                dims = [18, 44, 26]
+                rng.shuffle(dims)
+                H, W, D = dims
+                c.update({'cls': cls, 'plane': plane, 'shape': dims, 'angle': rng.choice([30.0, -25.0, 40.0, rng.uniform(15, 60)]),
+                          'keypoints': [[rng.uniform(5, W - 6), rng.uniform(5, H - 6), rng.uniform(4, D - 5), rng.uniform(0, 6.2), rng.uniform(0.5, 3)] for _ in range(4)],
+                          'boxes': []})
+                # boxes away from the centre of the frame (a stretch about the centre moves those most)
+                for _ in range(2):
+                    x1, y1, z1 = rng.choice([3.0, W - 11.0]), rng.choice([3.0, H - 11.0]), rng.choice([3.0, D - 10.0])
+                    c['boxes'].append([x1, y1, z1, x1 + rng.uniform(3, 7), y1 + rng.uniform(3, 7), z1 + rng.uniform(2, 6)])
+                c.pop('crop_to_border', None)
+                c.pop('scale_limit', None)
+                c.pop('shift_limit', None)
+                if cls == 'Rotate':
+                    c['crop_to_border'] = crop
+                else:
+                    c['scale_limit'] = rng.choice([(0.0, 0.0), (0.2, 0.4)])
+                    c['shift_limit'] = rng.choice([0.0, 0.1])
+                out.append(c)
+    return out
 
 
 def run_case(case):
@@ -37,7 +69,8 @@ def run_case(case):
     vol, pts = AF.marked_volume(shape, rng, 70)
     ang = case['angle']
     if case['cls'] == 'Rotate':
-        t = A.Rotate(limit=(ang, ang), axes=case['plane'], interpolation=0, border_mode='constant', rotate_method=case['method'], p=1.0)
+        t = A.Rotate(limit=(ang, ang), axes=case['plane'], interpolation=0, border_mode='constant', rotate_method=case['method'],
+                     crop_to_border=bool(case.get('crop_to_border', False)), p=1.0)
     else:
         t = A.ShiftScaleRotate(rotate_limit=(ang, ang), scale_limit=tuple(case['scale_limit']), shift_limit=case['shift_limit'],
                                axes=case['plane'], interpolation=0, border_mode='constant', rotate_method=case['method'], p=1.0)
